@@ -62,6 +62,19 @@ first-order explicitly, under syntactic conditions checked here (anything else i
     `JSXTag`: `unsupported` (the visitor calls it only for other classes); any other instance: `pyTagifyObj` (the value its
     `tagify()` returns is recorded in the instance).
   * `copy.copy(x)` in the visitor: a `JSXTag` goes to the translated `JSXTag.__copy__`, everything else to `pyCopyObjC20b`.
+
+`JSXTag.tagify` and `_lib_dependency`:
+
+  * in `tagify` the `def` of the visitor emits nothing (the walk applies it by name, see above); the statement
+    `cp = _walk_attrs_and_children(e, <visitor>)` becomes `(r, metadata_nodes) := walk G fuel e metadata_nodes; cp := r` — the
+    list the visitor appended to *is* `metadata_nodes` (conditions of `visitor_info`: bound once to `[]` before the `def`, not
+    read before this statement);
+  * `versions` (`from ._versions import versions`, not rebound): the table regenerated from the text of `_versions.py`
+    (`Generated.reactVersions`, harness/translate.py) as a dict of strings;
+  * the constructor calls `HTMLDependency(k=v, …)` and `Tag(a, …, *b)` with the classes imported from `._core`: the translated
+    `HTMLDependency.__init__` (pytr_c10b.py) / `Tag.__init__` (pytr_c15b.py, star binding `_call_star`) on a new, empty
+    instance, under the conditions on the class that those plug-ins check in `_core.py` itself (`_core_plain_class`);
+  * `HTML(e)`: `mkHTMLC20b` (`mkHTML`, `unsupported` for a `jsx` string: `UserString` keeps a `str` subclass instance as it is).
 """
 from __future__ import annotations
 
@@ -75,8 +88,9 @@ CORE = "htmltools/_core.py"
 #: Lean names of this area's translations
 MINE = ("JSXTagAttrDict_setitemC20b", "JSXTagAttrDict_updateMapC20b", "JSXTagAttrDict_updateC20b", "JSXTagAttrDict_initC20b",
         "JSXTag_initC20b", "JSXTag_extendC20b", "JSXTag_appendC20b", "JSXTag_copyC20b",
-        "JSXTag_tagify_visitorC20b", "walk_attrs_and_childrenC20b")
+        "JSXTag_tagify_visitorC20b", "walk_attrs_and_childrenC20b", "lib_dependencyC20b", "JSXTag_tagifyC20b")
 VISITOR, WALK = "JSXTag_tagify_visitorC20b", "walk_attrs_and_childrenC20b"
+LIBDEP, TAGIFY = "lib_dependencyC20b", "JSXTag_tagifyC20b"
 VISITOR_QUAL = "JSXTag.tagify.<inner>"
 WALK_PY = "_walk_attrs_and_children"
 
@@ -226,6 +240,10 @@ def expr_hook(fn, e):
         r = _walk_expr_hook(fn, e)
         if r is not None:
             return r
+    if fn.spec.lean in (LIBDEP, TAGIFY):
+        r = _tagify_expr_hook(fn, e)
+        if r is not None:
+            return r
     if not isinstance(e, ast.Call):
         return None
     f = e.func
@@ -303,6 +321,8 @@ def stmt_hook(fn, ind, s):
     if fn.spec.lean not in MINE:
         return False
     if fn.spec.lean in (VISITOR, WALK) and _walk_stmt_hook(fn, ind, s):
+        return True
+    if _tagify_stmt_hook(fn, ind, s):
         return True
     import pytr_c14
     import pytr_c15b
@@ -691,6 +711,109 @@ def _walk_expr_hook(fn, e):
     return None
 
 
+# ================================================================== tagify, _lib_dependency
+def _core_plain_class(name: str, base_ok) -> bool:
+    """in `_core.py`: `class name(<bases accepted by base_ok>)`, bound once, no metaclass / decorator / `__new__` /
+    `__init_subclass__`, and the same for its (single, plain) base if any"""
+    import pytr_c14
+    mod = _mod(CORE)
+    cs = _bindings(mod, name)
+    if len(cs) != 1 or not isinstance(cs[0], ast.ClassDef):
+        return False
+    c = cs[0]
+    if c.keywords or c.decorator_list or pytr_c14.defines(c, "__new__") or pytr_c14.defines(c, "__init_subclass__"):
+        return False
+    return base_ok(mod, c)
+
+
+def _no_bases(mod, c) -> bool:
+    return not c.bases
+
+
+def _one_plain_base(mod, c) -> bool:
+    import pytr_c14
+    if len(c.bases) != 1 or not isinstance(c.bases[0], ast.Name):
+        return False
+    bs = _bindings(mod, c.bases[0].id)
+    if len(bs) != 1 or not isinstance(bs[0], ast.ClassDef):
+        return False
+    b = bs[0]
+    return not (b.bases or b.keywords or b.decorator_list or pytr_c14.defines(b, "__new__") or pytr_c14.defines(b, "__init__")
+                or pytr_c14.defines(b, "__init_subclass__"))
+
+
+def _versions_table(fn) -> bool:
+    """`versions` is bound in this module exactly once, by `from ._versions import versions`"""
+    if _shadowed(fn, "versions"):
+        return False
+    bs = _bindings(_mod(fn.spec.file), "versions")
+    return (len(bs) == 1 and isinstance(bs[0], ast.ImportFrom) and bs[0].level == 1 and bs[0].module == "_versions"
+            and any(a.name == "versions" and a.asname is None for a in bs[0].names))
+
+
+def _tagify_expr_hook(fn, e):
+    T = _T
+    import pytr_c15b
+    if isinstance(e, ast.Name) and e.id == "versions" and isinstance(e.ctx, ast.Load) and not _shadowed(fn, "versions"):
+        if not _versions_table(fn):
+            raise T.Untranslatable("`versions` is not the table of ._versions")
+        return "(PVal.dict (HtmlVerif.Generated.reactVersions.map fun kv => (kv.1, PVal.str kv.2)))"
+    if not (isinstance(e, ast.Call) and isinstance(e.func, ast.Name)) or _shadowed(fn, e.func.id):
+        return None
+    f = e.func
+    if f.id == "HTML" and len(e.args) == 1 and not e.keywords and not isinstance(e.args[0], ast.Starred):
+        if not _from_core(fn, "HTML"):
+            raise T.Untranslatable("`HTML` is not the class of ._core")
+        return f"(← mkHTMLC20b {fn.V(e.args[0])})"
+    if f.id == "HTMLDependency":
+        info = fn.known.get("HTMLDependency_init")
+        if info is None or not info.available:
+            raise T.Untranslatable("HTMLDependency.__init__ is not translated")
+        if (not _from_core(fn, f.id) or info.spec.file != CORE or info.spec.qual != "HTMLDependency.__init__"
+                or not info.spec.returns_self or not _core_plain_class(f.id, _one_plain_base)):
+            raise T.Untranslatable("constructor call of HTMLDependency: not the plain class of ._core")
+        if pytr_c15b._has_star(e):
+            raise T.Untranslatable("star arguments in a constructor call of HTMLDependency")
+        return fn.call_known(info, e.args, e.keywords, recv='(PVal.obj "HTMLDependency" [])')
+    if f.id == "Tag":
+        info = fn.known.get("Tag_initC15b")
+        if info is None or not info.available:
+            raise T.Untranslatable("Tag.__init__ is not translated")
+        if (not _from_core(fn, f.id) or info.spec.file != CORE or info.spec.qual != "Tag.__init__"
+                or not info.spec.returns_self or not _core_plain_class(f.id, _no_bases)):
+            raise T.Untranslatable("constructor call of Tag: not the plain class of ._core")
+        return pytr_c15b._call_star(fn, info, e.args, e.keywords, recv='(PVal.obj "Tag" [])')
+    return None
+
+
+def _tagify_stmt_hook(fn, ind, s):
+    T = _T
+    if fn.spec.lean != TAGIFY:
+        return False
+    outer, g, cap, call_stmt = visitor_info()
+    if isinstance(s, ast.FunctionDef):
+        vis = fn.known.get(VISITOR)
+        if vis is None or not vis.available:
+            raise T.Untranslatable("the visitor of JSXTag.tagify is not translated")
+        if s.name != g.name:
+            raise T.Untranslatable("nested function other than the visitor")
+        return True                      # nothing to emit: the walk applies the visitor by name
+    if isinstance(s, ast.Assign) and len(s.targets) == 1 and _is_walk_call(s.value):
+        c = s.value
+        if not (isinstance(s.targets[0], ast.Name) and isinstance(c.args[1], ast.Name) and c.args[1].id == g.name
+                and s.lineno == call_stmt.lineno):
+            raise T.Untranslatable("call of the walk other than `t = walk(e, <visitor>)`")
+        w = fn.known.get(WALK)
+        if w is None or not w.available:
+            raise T.Untranslatable("_walk_attrs_and_children is not translated")
+        pair = fn.fresh("pair")
+        fn.emit(ind, f"let {pair} ← pyUnpack2 (← {WALK} G fuel {fn.V(c.args[0])} {fn.name(cap)})")
+        fn.emit(ind, f"{fn.name(cap)} := {pair}.2")
+        fn.emit(ind, f"{fn.name(s.targets[0].id)} := {pair}.1")
+        return True
+    return False
+
+
 def register(T):
     global _T
     _T = T
@@ -706,18 +829,21 @@ def register(T):
         F(FILE, "JSXTag.__copy__", "JSXTag_copyC20b"),
         F(FILE, VISITOR_QUAL, VISITOR, group="c20b_visitor"),
         F(FILE, WALK_PY, WALK, group="c20b_walk"),
+        F(FILE, "_lib_dependency", LIBDEP),
+        F(FILE, "JSXTag.tagify", TAGIFY, group="c20b_tagify"),
     ]
     VisitorFn, WalkFn = make_fn_classes()
     T.FN_CLASS[VISITOR] = VisitorFn
     T.FN_CLASS[WALK] = WalkFn
     T.ARITY.update({"JSXTagAttrDict_setitemC20b": 3, "JSXTagAttrDict_updateMapC20b": 2, "JSXTagAttrDict_updateC20b": 3,
                     "JSXTagAttrDict_initC20b": 2, "JSXTag_initC20b": 5, "JSXTag_extendC20b": 2, "JSXTag_appendC20b": 2,
-                    "JSXTag_copyC20b": 1, VISITOR: 2, WALK: 2})
+                    "JSXTag_copyC20b": 1, VISITOR: 2, WALK: 2, LIBDEP: 2, TAGIFY: 1})
     # the children of a JSXTag are a TagList (`self.children = TagList(*args)` in `JSXTag.__init__`)
     T.FIELD_CLASS[("JSXTag", "children")] = "TagList"
     # … and its attrs a JSXTagAttrDict (`self.attrs = JSXTagAttrDict(**kwargs)`)
     T.FIELD_CLASS[("JSXTag", "attrs")] = "JSXTagAttrDict"
-    for m in ("HtmlVerif.Py.PrimC10", "HtmlVerif.Py.PrimC15b", "HtmlVerif.Py.PrimC20", "HtmlVerif.Py.PrimC20b"):
+    for m in ("HtmlVerif.Py.PrimC10", "HtmlVerif.Py.PrimC15b", "HtmlVerif.Py.PrimC20", "HtmlVerif.Py.PrimC20b",
+              "HtmlVerif.Generated.Tables"):
         if m not in T.IMPORTS:
             T.IMPORTS.append(m)
     # first in line for the functions of this area (the hooks decline every other function)
